@@ -3,6 +3,7 @@ import Chartparse.Model.Render
 import Chartparse.Gen.Imports
 import Chartparse.Model.Objects
 import Chartparse.Gen.Classes
+import Chartparse.Gen.Leaf
 /-! Line-protocol driver: one request per line on stdin, one canonical reply per line on stdout.
     Imports only `Model/` and `Gen/` (no Mathlib), so it links as a native executable. -/
 open Chartparse Chartparse.F64 Chartparse.Tempo Chartparse.Inst Chartparse.Meta Chartparse.Rate
@@ -52,6 +53,54 @@ def dumpChart (c : Chart) : String :=
      sec "LY" (c.events.lyrics.map showVal)] ++
     ((sortTracks c.tracks).map dumpTrack).flatten ++
     [s!"W {c.unparsable}", sec "U" (c.unhandled.map showCps)]
+
+
+/-! ### the embedded Python subset: leaves from /repo and free-standing expressions -/
+open Chartparse.Py in
+def showPy : M Val → String
+  | .ok (.int n) => s!"int {n}" | .ok (.flt x) => s!"flt {showRat x}" | .ok (.bool b) => s!"bool {b}"
+  | .ok (.td us) => s!"td {us}" | .ok .none => "none" | .error e => showErr e
+
+open Chartparse.Py in
+def parsePyVal (s : String) : Val :=
+  match s.splitOn ":" with
+  | ["i", n] => .int n.toInt! | ["f", x] => .flt (parseRat x) | ["t", n] => .td n.toInt! | _ => .none
+
+/-- prefix-notation expression: `int n` | `var x` | `bin op a b` | `cmp op a b` | `round a` | `roundN n a` | `intOf a` | `cast a` |
+    `abs a` | `tsec a` | `tdus a`; returns the expression and the unread tokens -/
+partial def parsePyExpr : List String → Option (Chartparse.Py.Expr × List String)
+  | "int" :: n :: r => some (.int n.toInt!, r)
+  | "var" :: x :: r => some (.var x, r)
+  | "bin" :: op :: r =>
+    let o : Option Chartparse.Py.BinOp := match op with | "add" => some .add | "sub" => some .sub | "mul" => some .mul | "truediv" => some .truediv | _ => none
+    match o, parsePyExpr r with
+    | some o, some (a, r1) => match parsePyExpr r1 with | some (b, r2) => some (.bin o a b, r2) | none => none
+    | _, _ => none
+  | "cmp" :: op :: r =>
+    let o : Option Chartparse.Py.CmpOp := match op with | "lt" => some .lt | "le" => some .le | "gt" => some .gt | "ge" => some .ge | "eq" => some .eq | "ne" => some .ne | _ => none
+    match o, parsePyExpr r with
+    | some o, some (a, r1) => match parsePyExpr r1 with | some (b, r2) => some (.cmp o a b, r2) | none => none
+    | _, _ => none
+  | "round" :: r => (parsePyExpr r).map fun (a, r1) => (.round a, r1)
+  | "roundN" :: n :: r => (parsePyExpr r).map fun (a, r1) => (.roundN a n.toNat!, r1)
+  | "intOf" :: r => (parsePyExpr r).map fun (a, r1) => (.intOf a, r1)
+  | "cast" :: r => (parsePyExpr r).map fun (a, r1) => (.cast a, r1)
+  | "abs" :: r => (parsePyExpr r).map fun (a, r1) => (.abs a, r1)
+  | "tsec" :: r => (parsePyExpr r).map fun (a, r1) => (.totalSeconds a, r1)
+  | "tdus" :: r => (parsePyExpr r).map fun (a, r1) => (.tdMicros a, r1)
+  | _ => none
+
+open Chartparse.Py Chartparse.Gen.Leaf in
+def runLeaf (name : String) (args : List String) : String :=
+  let v := args.map parsePyVal
+  match name, v with
+  | "secs", [t, b, r] => showPy (evalBody [("ticks", t), ("bpm", b), ("resolution", r)] secondsFromTicksAtBpm)
+  | "notedur", [r, d] => showPy (evalBody [("resolution", r), ("note_duration.value", d)] noteDurationToTicks)
+  | "bpm", [n] => showPy (valueOf [("data.raw_bpm", n)] bpmDecode "bpm")
+  | "valid", [x] => showPy (evalBody [("self.bpm", x)] bpmValidate)
+  | "nps", [s, e, c] => showPy (evalBody [("start_time", s), ("end_time", e), ("num_events_to_consider", c)] notesPerSecond)
+  | "anchor", [us] => showPy (valueOf [("data.microseconds", us)] anchorTimestamp "timestamp")
+  | _, _ => "bad-leaf"
 
 def parseWant (s : String) : Option (List (Nat × Nat)) :=
   if s == "~" then none
@@ -116,6 +165,14 @@ def handle (toks : List String) : String :=
     s!"{(CSet.space.test n)} {(CSet.digit.test n)} {digitVal n} {isBreak n}"
   | ["int", text] => toString (intOf (parseCps text))
   | ["split", text] => ";".intercalate ((splitlines (parseCps text)).map showCps)
+  | "leaf" :: name :: args => runLeaf name args
+  | "pyx" :: envs :: toks =>
+    -- envs: `x=i:3,y=f:1/3` (or `-`); toks: a prefix-notation expression
+    let env : Chartparse.Py.Env := if envs == "-" then [] else (envs.splitOn ",").filterMap fun kv =>
+      match kv.splitOn "=" with | [k, v] => some (k, parsePyVal v) | _ => none
+    match parsePyExpr toks with
+    | some (e, []) => showPy (Chartparse.Py.evalExpr env e)
+    | _ => "bad-expr"
   | ["fl", x] => showRat (fl (parseRat x))
   | ["rhe", x] => toString (rhe (parseRat x))
   | ["us", x] => toString (usOfSeconds (parseRat x))
